@@ -311,7 +311,7 @@ func runValues(c *core.Case) {
 	case c.Index%5 < 2:
 		t = mapTypes[c.Rng.Intn(len(mapTypes))]
 	case c.Index%5 == 2:
-		t = jtypes.Library[c.Rng.Intn(len(jtypes.Library))]
+		t = jtypes.DecodeLibrary[c.Rng.Intn(len(jtypes.DecodeLibrary))]
 	default:
 		cfg := jtypes.DefaultCfg
 		cfg.ErrLeaves = true
